@@ -423,6 +423,11 @@ func outcomeOf(p *sym.Path) string {
 			}
 		}
 	}
+	// what goes into the Items map is recorded before the visitor's verdict of the same entry, whether the method stores
+	// the pair while traversing or collects first and builds the map afterwards
+	sort.SliceStable(parts, func(a, b int) bool {
+		return strings.HasPrefix(parts[a], "items[") && strings.HasPrefix(parts[b], "continue=")
+	})
 	if p.Panic {
 		parts = append(parts, "panic")
 		return strings.Join(parts, "; ")
